@@ -251,7 +251,7 @@ TEXTS = {
                 "direct terms that are retained; the result is acyclic and every one of its terms carries exactly the kept records with a "
                 "retained direct term at the term or below it (the C02 statement holds again in the result). spec_C14 states retained set, induced links, copied names/flags, "
                 "preserved distances, refusal iff a leaf is outside the subtree, the annotation filter, and re-runs the executable statements "
-                "of C01-C03 on the result, evaluated on the crate's observation; the transcription is diffed against the crate.",
+                "of C01-C03 on the result, evaluated on the crate's observation; the transcription is diffed against the crate. LEAF DISTANCE (C14_model_leaf_distance_kept): every leaf reaches root in the result by a chain whose length is the shortest distance in the source, and no chain of the result is shorter; C14_model_contains_leaves_and_root.",
         "design_ref": "DESIGN.md §4 C14, §9", "note": NOTE_COMMON, "technique": TECH,
     },
     "C17": {
@@ -289,7 +289,7 @@ TEXTS = {
         "text": "Theorems (Properties/C20.v, about the Gallina transcription, unbounded): parse(show n) = Ok n for EVERY n <= u32::MAX (induction "
                 "over digits, not enumeration); big-endian byte round trip; rendered shape 'HP:' + >= 7 digits; the parser never panics on any "
                 "byte string. Tied to the crate by sweeping ALL ids 0..10^7+1 and the u32 borders through to_string/try_from/to_be_bytes/from, "
-                "and by diffing model and crate on generated texts (multi-byte characters at every offset).",
+                "and by diffing model and crate on generated texts (multi-byte characters at every offset). EXACT ACCEPTANCE (C20_parse_accepts_exactly, C20_parse_error_kind): parsing returns Ok n iff the text has the minimal length, byte 3 is a character boundary and the rest is an optional + and a non-empty ASCII digit string of decimal value n <= u32::MAX; every other text is Err(ParseIntError).",
         "design_ref": "DESIGN.md §4 C20", "note": NOTE_COMMON + "u32::from_str grammar as documented by core.", "technique": TECH,
     },
     "C12": {
